@@ -8,6 +8,7 @@ import attr
 
 import asn1crypto
 
+from cryptodatahub.common.exception import InvalidValue
 from cryptodatahub.common.key import PublicKeyX509Base
 from cryptodatahub.common.stores import CertificateTransparencyLog, CertificateTransparencyLogParamsBase
 
@@ -54,7 +55,8 @@ class SignedCertificateTimestamp(ParsableBase, Serializable):
     )
     timestamp = attr.ib(validator=attr.validators.instance_of(datetime.datetime))
     extensions = attr.ib(
-        validator=attr.validators.deep_iterable(member_validator=attr.validators.instance_of(CtExtensions))
+        converter=CtExtensions,
+        validator=attr.validators.instance_of(CtExtensions)
     )
     signature_algorithm = attr.ib(validator=attr.validators.in_(TlsSignatureAndHashAlgorithm))
     signature = attr.ib(
@@ -73,6 +75,8 @@ class SignedCertificateTimestamp(ParsableBase, Serializable):
         body_parser.parse_numeric('version', 1, CtVersion)
         body_parser.parse_raw('log', 32)
         body_parser.parse_timestamp('timestamp', milliseconds=True)
+        if body_parser['timestamp'] is None:  # all-ones is the "forever" sentinel, which an SCT cannot carry
+            raise InvalidValue(0xffffffffffffffff, cls, 'timestamp')
         body_parser.parse_parsable('extensions', CtExtensions)
         body_parser.parse_parsable('signature_algorithm', TlsSignatureAndHashAlgorithmFactory)
         body_parser.parse_parsable('signature', CtSignature)
